@@ -58,7 +58,7 @@ var c33Repo = c33Config{
 	// go-icu-regex (pinned in go.mod): Matches passes `start` to uregex_find unchanged (0-based, unlike
 	// IndexOf/Substring/Replace which subtract 1) and loops `for i := 1; i < occurrence`: a whole-subject
 	// test is Matches(0, 0|1).
-	ConstArgs:   map[string][2]int64{"Matches": {0, 1}},
+	ConstArgs: map[string][2]int64{"Matches": {0, 1}},
 	// floors: the family and the per-argument rules equal today's counts; rules counted per call site sit below today's counts
 	// (37 / 28 / 16 / 21 / 13 / 11) because merging the two compile call sites of a node or dropping the dead cache fields of
 	// REGEXP_REPLACE is a legitimate refactor
@@ -69,7 +69,6 @@ func init() {
 	register(&Property{
 		ID:        "C33",
 		Patterns:  []string{"./sql/expression/function"},
-		Thorough:  []string{"./sql/expression/...", "./internal/regex"},
 		Technique: "sibling agreement over go/ssa (resolved callees, argument origins), path exploration with value identity for error propagation and NULL returns, switch-table agreement (go/ast + go/constant)",
 		Explanation: "Structural necessary conditions of 'REGEXP_LIKE / REGEXP_INSTR / REGEXP_SUBSTR / REGEXP_REPLACE agree and invalid patterns produce errors', decided on the Go wrappers (the family = every struct type of " +
 			"sql/expression/function that stores a value of the internal/regex matcher interface; the interface's methods are enumerated from its method set with go/types; analysed with the real build's " +
@@ -125,8 +124,6 @@ type c33Fam struct {
 	reField *types.Var
 	slots   map[*types.Var]bool // error fields that receive source errors
 	eval    *ssa.Function
-	// per call of H: param index -> field
-	hArgs []map[int]*types.Var
 	// field whose evaluated value is the match string
 	subject *types.Var
 }
@@ -163,6 +160,8 @@ func runC33(c *Ctx, cfg c33Config) {
 	c.Rule("C33-S1", "every string handed to the matcher derives from an evaluated SQL argument through the to-text conversion and an unwrap step on every derivation path", cfg.FloorS1)
 	c.Rule("C33-G5", "every integer handed to the matcher is an evaluated SQL argument with conversions only (no arithmetic) or a constant of the frozen table; position and occurrence come from the same-named, different fields in every sibling", cfg.FloorG5)
 	c.Rule("C33-G6", "match_type: only validated or constant strings reach the flag loop; the validator's default arm returns a constructed error; every validated character is interpreted; interpreted flags are pairwise different non-zero constants", cfg.FloorG6)
+
+	c.Rule("C33-G7", "what a node keeps across rows is guarded by a cacheability flag that covers every argument it depends on: the stored result by every argument evaluated in Eval or by the compile helper, the kept matcher by the pattern and match_type arguments; compiled under both polarities of the flag; one predicate function in all siblings", cfg.FloorG7)
 
 	e := &c33{c: c, cfg: cfg, famOf: map[*types.Named]*c33Fam{}, hHelpers: map[*ssa.Function]bool{}, unwraps: map[*types.Func]bool{}, errCtors: map[string]bool{}}
 	for _, n := range cfg.ErrCtors {
